@@ -15,6 +15,7 @@ mod shim;
 mod pc15;
 mod pc16;
 mod pc19;
+mod pcrep;
 
 fn main() {
     explore::install_panic_hook();
@@ -29,6 +30,9 @@ fn main() {
     let ctx: &'static Ctx = Box::leak(Box::new(c));
     match id.as_str() {
         "C01" => pc01::run_c01(ctx),
+        "C02" | "C06" | "C07" | "C08" | "C09" | "C13" | "C20" => pcrep::run_emitted(ctx, Box::leak(id.clone().into_boxed_str())),
+        "C03" => pcrep::run_c03(ctx),
+        "C05" => pcrep::run_c05(ctx),
         "C14" => pc01::run_c14(ctx),
         "C10" => pc10::run(ctx),
         "C11" => pc11::run(ctx),
